@@ -317,3 +317,20 @@ def run(repo, rep, tier):  # noqa: F811 -- round-6 remedies (core/round6.py)
 _ADDR6C = " R04.7: format codecs merge the user's default_dialect onto the format dialect (`<Format>Dialect.merge(default_dialect)`), encoder and decoder alike. Borrowed: R13.12, R15.12, R03.8."
 EXPLANATION += _ADDR6C
 LEVEL_TEXT += _ADDR6C
+
+
+_run_before_r7a = run
+
+
+def run(repo, rep, tier):  # noqa: F811 -- round-7 remedies / borrowings
+    _run_before_r7a(repo, rep, tier)
+    if getattr(rep, "borrowed", False):
+        return
+    from ..core.report import Only as _O7
+    from . import c13 as _c13r7
+    _c13r7.run(repo, _O7(rep, {"R13.1"}), tier)
+
+
+_ADD_R7A = ' Borrowed: R13.1 (Dialect.merge: every option of the merged dialect comes from one of the two operands -- the format codecs build their dialect with it).'
+EXPLANATION += _ADD_R7A
+LEVEL_TEXT += _ADD_R7A
